@@ -15,12 +15,13 @@ Import ListNotations.
 Local Open Scope N_scope.
 
 Section Values.
-Variable ents : list entity.
+Variable acc : list entity.        (* the entities visible when the value was built *)
+Variable ents : list entity.       (* the entities of the document type declaration: what normalized_value sees *)
 Variable ext : bool.
 Variable en : W.env.
 Variable f : nat.
 Notation F := (Datatypes.S f).
-Hypothesis HattrV : forall nm e, resolve_ref ents ext true nm = IOk e ->
+Hypothesis HattrV : forall nm e, resolve_ref acc ext true nm = IOk e ->
   exists v, expand_attr ents nm = IOk v /\ W.av_value F en [W.AvEnt nm] = v.
 
 Lemma av_value_app (a b : list W.avpiece) : W.av_value F en (a ++ b) = W.av_value F en a ++ W.av_value F en b.
@@ -32,7 +33,7 @@ Proof.
 Qed.
 
 Lemma value_loop_spec (l : list att_value) : forall vs, (exists q, DisplayLex.av_ok q false l) \/ (exists q, DisplayLex.av_ok q true l) ->
-  build_avalues ents ext l = IOk vs -> value_loop ents vs = IOk (W.av_value F en (x_av l)).
+  build_avalues acc ext l = IOk vs -> value_loop ents vs = IOk (W.av_value F en (x_av l)).
 Proof.
   induction l as [|v l IH]; intros vs Hok H.
   - cbn [build_avalues] in H. injection H as <-. reflexivity.
@@ -106,7 +107,7 @@ Proof.
   destruct (attribute_name (at_name a)) as [lo pr]. cbn [fst snd] in Hn.
   apply ibind_ok in Hb. destruct Hb as [vs [Hvs Hb]]. injection Hb as <-.
   unfold attr_row, vattr_of, normalized_value. cbn [va_local va_prefix va_values va_from_dtd xa_local xa_prefix xa_values declaration_type find].
-  rewrite (value_loop_spec ents ext en f HattrV (at_value a) vs (or_introl (ex_intro _ q Hq)) Hvs). cbn [ibind negb].
+  rewrite (value_loop_spec ents ents ext en f HattrV (at_value a) vs (or_introl (ex_intro _ q Hq)) Hvs). cbn [ibind negb].
   unfold lift_row, spec_row, att_nm. cbn [fst snd]. now rewrite Hn.
 Qed.
 
